@@ -9,13 +9,18 @@ Local Open Scope list_scope.
 
 (* a member line  key[?]: type;  at token level: the key hole lexed to one identifier token, the type
    hole to tokens that the type parser consumes up to the semicolon, whatever follows *)
-Record gmember := { gm_key : str; gm_opt : bool; gm_toks : list tk; gm_ty : ty }.
+(* the key token: a bare identifier name or (ts_key filter) a double-quoted literal *)
+Inductive gkey := GId (s : str) | GStr (b : str).
+Definition gkey_tok (k : gkey) : tk := match k with GId s => KId s | GStr b => KStr DQ b end.
+Definition gkey_ast (k : gkey) : key := match k with GId s => KeyId s | GStr b => KeyStr b end.
+Definition gkey_ok (k : gkey) : bool := match k with GId s => is_ts_identifier s | GStr b => str_body_ok DQ b end.
+Record gmember := { gm_key : gkey; gm_opt : bool; gm_toks : list tk; gm_ty : ty }.
 Definition good_member (m : gmember) : Prop :=
-  is_ts_identifier (gm_key m) = true /\ ty_ok (gm_ty m) = true /\
+  gkey_ok (gm_key m) = true /\ ty_ok (gm_ty m) = true /\
   forall rest, ptype (gm_toks m ++ P ";" :: rest) = Some (gm_ty m, P ";" :: rest).
 Definition member_toks (m : gmember) : list tk :=
-  KId (gm_key m) :: (if gm_opt m then [P "?"] else []) ++ P ":" :: gm_toks m ++ [P ";"].
-Definition member_ast (m : gmember) : key * bool * ty := (KeyId (gm_key m), gm_opt m, gm_ty m).
+  gkey_tok (gm_key m) :: (if gm_opt m then [P "?"] else []) ++ P ":" :: gm_toks m ++ [P ";"].
+Definition member_ast (m : gmember) : key * bool * ty := (gkey_ast (gm_key m), gm_opt m, gm_ty m).
 Definition interface_toks (name : str) (ms : list gmember) : list tk :=
   [KId (L "export"); KId (L "interface"); KId name; P "{"] ++ flat_map member_toks ms ++ [P "}"].
 
@@ -39,19 +44,23 @@ Lemma p_members_semi n rest acc ix :
 Proof. reflexivity. Qed.
 
 Lemma p_members_member n k (opt : bool) toks t tail acc ix :
-  is_ts_identifier k = true ->
+  gkey_ok k = true ->
   ptype (toks ++ P ";" :: tail) = Some (t, P ";" :: tail) ->
-  p_members ptype (S n) (KId k :: (if opt then [P "?"] else []) ++ P ":" :: toks ++ P ";" :: tail) acc ix =
-  p_members ptype n (P ";" :: tail) ((KeyId k, opt, t) :: acc) ix.
-Proof. intros Hk Hp.
-  assert (tk_is "}" (KId k) = false) as H1 by (apply (tk_is_ident_punct k "}" "}"%char); auto).
-  assert (tk_is ";" (KId k) = false) as H2 by (apply (tk_is_ident_punct k ";" ";"%char); auto).
-  assert (tk_is "," (KId k) = false) as H3 by (apply (tk_is_ident_punct k "," ","%char); auto).
-  assert (tk_is "[" (KId k) = false) as H4 by (apply (tk_is_ident_punct k "[" "["%char); auto).
-  cbn [p_members]. rewrite H1, H2, H3, H4. cbn [orb].
-  destruct opt; cbn [app].
-  - change (tk_is "?" (P "?")) with true. cbv iota. change (tk_is ":" (P ":")) with true. cbv iota. rewrite Hp. reflexivity.
-  - change (tk_is "?" (P ":")) with false. cbv iota. change (tk_is ":" (P ":")) with true. cbv iota. rewrite Hp. reflexivity. Qed.
+  p_members ptype (S n) (gkey_tok k :: (if opt then [P "?"] else []) ++ P ":" :: toks ++ P ";" :: tail) acc ix =
+  p_members ptype n (P ";" :: tail) ((gkey_ast k, opt, t) :: acc) ix.
+Proof. intros Hk Hp. destruct k as [k|b]; cbn [gkey_tok gkey_ast gkey_ok] in *.
+  - assert (tk_is "}" (KId k) = false) as H1 by (apply (tk_is_ident_punct k "}" "}"%char); auto).
+    assert (tk_is ";" (KId k) = false) as H2 by (apply (tk_is_ident_punct k ";" ";"%char); auto).
+    assert (tk_is "," (KId k) = false) as H3 by (apply (tk_is_ident_punct k "," ","%char); auto).
+    assert (tk_is "[" (KId k) = false) as H4 by (apply (tk_is_ident_punct k "[" "["%char); auto).
+    cbn [p_members]. rewrite H1, H2, H3, H4. cbn [orb].
+    destruct opt; cbn [app].
+    + change (tk_is "?" (P "?")) with true. cbv iota. change (tk_is ":" (P ":")) with true. cbv iota. rewrite Hp. reflexivity.
+    + change (tk_is "?" (P ":")) with false. cbv iota. change (tk_is ":" (P ":")) with true. cbv iota. rewrite Hp. reflexivity.
+  - cbn [p_members tk_is orb].
+    destruct opt; cbn [app].
+    + change (tk_is "?" (P "?")) with true. cbv iota. change (tk_is ":" (P ":")) with true. cbv iota. rewrite Hp. reflexivity.
+    + change (tk_is "?" (P ":")) with false. cbv iota. change (tk_is ":" (P ":")) with true. cbv iota. rewrite Hp. reflexivity. Qed.
 
 Lemma p_members_ok : forall ms n acc ix rest,
   Forall good_member ms -> 2 * List.length ms + 1 <= n ->
@@ -68,7 +77,8 @@ Proof. induction ms as [|m ms IH]; intros n acc ix rest HF Hn.
 
 Lemma members_ok_all ms : Forall good_member ms -> forallb member_ok (map member_ast ms) = true.
 Proof. induction 1 as [|m ms Hm HF IH]; [reflexivity|]. cbn [map forallb]. rewrite IH, andb_true_r.
-  destruct Hm as [Hk [Ht _]]. unfold member_ok, member_ast. cbn [fst snd key_ok]. rewrite Hk, Ht. reflexivity. Qed.
+  destruct Hm as [Hk [Ht _]]. unfold member_ok, member_ast. cbn [fst snd]. rewrite Ht, andb_true_r.
+  destruct (gm_key m); cbn [gkey_ast key_ok gkey_ok] in *; auto. Qed.
 
 Lemma flat_len ms : 2 * List.length ms <= List.length (flat_map member_toks ms).
 Proof. induction ms as [|m ms IH]; [cbn; lia|]. cbn [flat_map List.length]. rewrite app_length. unfold member_toks at 1.
@@ -94,7 +104,7 @@ Proof. intros Hn Ht.
   cbn [p_type]. unfold p_type_body. change (tk_is "|" (KId n)) with (str_eqb n (L "|")). rewrite Hb.
   unfold p_postfix. cbn [p_primary]. rewrite Ht. destruct rest as [|[] r]; reflexivity. Qed.
 
-Lemma good_leaf k opt n : is_ts_identifier k = true -> path_ok [n] = true -> str_eqb n (L "typeof") = false ->
+Lemma good_leaf k opt n : gkey_ok k = true -> path_ok [n] = true -> str_eqb n (L "typeof") = false ->
   good_member {| gm_key := k; gm_opt := opt; gm_toks := [KId n]; gm_ty := TyRef [n] [] |}.
 Proof. intros Hk Hn Ht. split; [exact Hk|]. split; [cbn [gm_ty ty_ok forallb]; rewrite Hn; reflexivity|].
   intros rest. cbn [gm_toks gm_ty app]. unfold ptype. change TYF with (S 63). apply leaf_parse; assumption. Qed.
